@@ -3,7 +3,7 @@
 (* The space is split into classes (initial states, a few thousand) whose members (<= 256 each) are   *)
 (* enumerated by the Eval action, so that TLC's workers share the work and nothing large is evaluated *)
 (* as a constant.                                                                                       *)
-EXTENDS ShardCoord, Json
+EXTENDS ShardCoord, Json, SequencesExt
 CONSTANTS Tier,      \* "quick" | "thorough"
           Stride     \* export sampling of the two-byte spaces: one record in Stride
 
@@ -58,8 +58,9 @@ LogLast(h, r) == <<r>>
 
 \* behaviour export: one record per answered query; the large two-byte spaces are sampled inside TLC
 Sampled(x) ==
-    IF x.k = "compute" /\ Len(x.suf) = 2 /\ x.tpl = "user" /\ x.len = 32
-    THEN (x.suf[1] * 256 + x.suf[2] + x.n) % Stride = 0
+    IF x.k = "compute" /\ x.len = 32 /\ Len(x.suf) >= 1 /\ ~(x.tpl = "user" /\ Len(x.suf) = 1)
+    THEN (FoldLeft(LAMBDA acc, b : (acc * 31 + b) % 65521, x.n % 65521, x.suf)) % Stride = 0
+         \/ (x.tpl # "user" /\ x.suf[Len(x.suf)] \in {0, 254, 255})
     ELSE TRUE
 EmitEdge == Sampled(q') => PrintT("@@B " \o ToJson(hist'))
 \* the templates, exported so that the harness builds addresses from the specification's bytes
